@@ -86,6 +86,9 @@ def run(tier, seed, rep):
         if rnd.random() < 0.25:
             opts["use_neutron_count"] = True
             opts["output_masses_for_neutron_offset"] = rnd.random() < 0.5
+        elif rnd.random() < 0.25:
+            # the flag for the other view, set while the mass view is asked for: it has nothing to act on
+            opts["output_masses_for_neutron_offset"] = True
         opts["distribution_abundance"] = rnd.choice([1.0, 1.0, 100.0, 0.5, 1e6, 12345.0])
         opts["is_abundance_sum"] = rnd.random() < 0.4
         ev = pattern_event(pp, f"p{i}", c, opts)
@@ -151,8 +154,9 @@ def run(tier, seed, rep):
         def dist():
             return [(rnd.randint(800, 830) / 8.0, rnd.randint(1, 64) / 64.0) for _ in range(rnd.randint(0, 6))]
         d1, d2 = sorted(dist()), sorted(dist())
-        o, r_ = call(lambda: pp.merge_isotopic_distributions(list(d1), list(d2)))
-        evs.append({"tid": f"m{i}", "k": "merge", "d1": pattern(d1), "d2": pattern(d2), "out": o,
+        prec = rnd.choice([None, None, 0, 1, 2, 3])
+        o, r_ = call(lambda: pp.merge_isotopic_distributions(list(d1), list(d2), precision=prec))
+        evs.append({"tid": f"m{i}", "k": "merge", "d1": pattern(d1), "d2": pattern(d2), "prec": -1 if prec is None else prec, "out": o,
                     "res": pattern(r_) if o == "ret" else []})
     res = core.validate_traces("Trace_Isotope", evs, "C14", min_per_shard=40)
     rep.add_trace("patterns", evs, res,
